@@ -106,7 +106,7 @@ def _cfg(tier):
         "gapped_extra_fams": ["std", "rect", "asym"],
         "ungapped": [
             {"k": [2, 2], "len": [5, 5], "fams": all7},
-            {"k": [3, 3], "len": [4, 4], "fams": ["std", "asym", "allneg"]},
+            {"k": [3, 3], "len": [4, 4], "fams": ["std", "asym"]},
             {"k": [2, 3], "len": [4, 3], "fams": ["rect", "rectneg"]},
         ],
         "width_len": 3,
